@@ -169,17 +169,24 @@ Proof.
     destruct id62_not_wellknown as [Hd Hn].
     cbn [fw_kind read_field fw_val fw_list fw_ext fw_key norm_fty].
     destruct f as [[|p| |]|].
-    + (* informal: only as a singular property, and never with list rules (compile error) *)
+    + (* informal: only as a singular property *)
       destruct m; try discriminate.
-      destruct l as [p0|]; [discriminate|]. inversion Hl; subst lst. unfold read_string. cbn.
-      destruct e as [[[[[|]|pp ee]|] tn]|]; reflexivity.
+      * destruct l as [p0|]; inversion Hl; subst lst; unfold read_string; cbn;
+          destruct e as [[[[[|]|pp ee]|] tn]|]; reflexivity.
+      * (* an array item: recognised through its unique_string foreign key *)
+        destruct l as [p0|]; [|discriminate]. inversion Hl; subst lst. unfold read_string. cbn.
+        destruct e as [[[[[|]|pp ee]|] tn]|]; reflexivity.
     + (* custom *)
       destruct m; try discriminate.
-      apply andb_true_iff in Hrt as [H3 Hnl]. destruct l as [p0|]; [discriminate|].
-      inversion Hl; subst lst. apply negb_true_iff in H3.
-      unfold read_string. cbn [only_ty c_ty vt_of]. rewrite H3.
-      destruct (str_eqb p date_pattern), (str_eqb p number_pattern); cbn;
+      apply andb_true_iff in Hrt as [H3 Hwk]. apply negb_true_iff in H3. destruct l as [p0|].
+      * (* with list rules: a unique_string foreign key; the key annotation keeps the format *)
+        cbn [is_some negb orb] in Hwk. apply andb_true_iff in Hwk as [H1 H2]. apply negb_true_iff in H1, H2.
+        inversion Hl; subst lst. unfold read_string. cbn [only_ty c_ty vt_of]. rewrite H1, H2, H3. cbn.
         destruct e as [[[[[|]|pp ee]|] tn]|]; reflexivity.
+      * inversion Hl; subst lst.
+        unfold read_string. cbn [only_ty c_ty vt_of]. rewrite H3.
+        destruct (str_eqb p date_pattern), (str_eqb p number_pattern); cbn;
+          destruct e as [[[[[|]|pp ee]|] tn]|]; reflexivity.
     + (* uuid *)
       destruct l as [p0|]; inversion Hl; subst lst; unfold read_string; cbn;
         destruct e as [[[[[|]|pp ee]|] tn]|]; destruct m; reflexivity.
@@ -297,17 +304,20 @@ Proof.
       destruct f as [[|p| |]|].
       * (* informal, not singular *)
         destruct m; try discriminate; cbn [j5_seen list_seen];
-          (destruct l as [p0|]; [discriminate|]); inversion Hl; subst lst;
+          destruct l as [p0|]; try discriminate; inversion Hl; subst lst;
           unfold read_string; cbn; destruct e; cbn; discriminate.
       * (* custom *)
         destruct m.
-        -- (* singular: well-known pattern, or list rules *)
+        -- (* singular: the id62 pattern, or a well-known pattern under list rules *)
            cbn [j5_seen list_seen fw_ext fw_list]. apply andb_false_iff in Hb as [Hp|Hls].
            ++ apply negb_false_iff in Hp. apply str_eqb_eq in Hp. subst p.
               unfold read_string. cbn [vt_of only_ty c_ty]. rewrite Hd, Hn, str_eqb_refl.
               intro H. break_in H; inversion H.
            ++ destruct l as [p0|]; [|discriminate]. inversion Hl; subst lst.
-              unfold read_string. cbn [vt_of only_ty c_ty]. intro H. break_in H; inversion H.
+              cbn [is_some negb orb] in Hls.
+              unfold read_string. cbn [vt_of only_ty c_ty].
+              destruct (str_eqb p date_pattern); [cbn; discriminate|].
+              destruct (str_eqb p number_pattern); [cbn; discriminate|]. discriminate Hls.
         -- cbn [j5_seen list_seen]. unfold read_string. intro H. break_in H; inversion H.
         -- cbn [j5_seen list_seen]. unfold read_string. intro H. break_in H; inversion H.
       * destruct m; discriminate.
